@@ -97,5 +97,18 @@ PROPS["C07"] = {
     "technique": "runtime monitoring: reference-reader oracle on serialised bytes, model-based oracle on parser/client results, server-side event log",
 }
 
+PROPS["C06"] = {
+    "level": "exploration",
+    "engines": [
+        {"bin": "hv", "args": ["c06"]},
+    ],
+    "min": {"quick": {"evaluations": 50_000, "files_served_intact": 1000, "redirects_301": 50, "availability_requests": 1000},
+            "thorough": {"evaluations": 1_000_000}},
+    "assumptions": [],
+    "level_text": "The three real handlers are called in-process on generated directory trees with uniquely tagged file contents and canary files outside the root, for every file's own path and for all compositions of traversal/encoding segments to depth 3 (4 thorough); each response is judged by the confinement rule and by an independent resolver of the documented lookup rules.",
+    "level_note": "Trusted: the harness's resolver (uses the file system as judge) and MIME table; no symlinks.",
+    "technique": "runtime monitoring: canary/tag confinement monitor + reference-resolver oracle over bounded-exhaustive request paths",
+}
+
 # properties without a check, with the reason (kept current)
 NOT_CLAIMED = {}
